@@ -65,6 +65,6 @@ def render_chunk(names, seqs, ch):
                                  pileup=ch.get("pileup", True), ruler=ch.get("ruler", False))
     if fmt == "clu":
         return formats.write_clustal(names, rows, width=(len(rows[0]) if ch.get("unwrapped") else (ch.get("width", 60) or 60)), eol=eol, cons=ch.get("cons", True),
-                                     counts=ch.get("counts", False), gapchar="-",
+                                     counts=ch.get("counts", False), gapchar="-", group=ch.get("clu_group", 0),
                                      header=ch.get("header", "CLUSTAL W (1.83) multiple sequence alignment"))
     raise ValueError(fmt)
